@@ -275,7 +275,7 @@ def run(tier, seed, pid="C03"):
         "known_finding_occurrences": v.n_known, "new_violations": v.n_new,
     }, time.time() - t0, violations=v.n_new,
         assumptions=["decoded content is compared through the re-encoded bytes with the FRI partition count masked (the two exemptions of the property)",
-                     "single-segment proofs; time-outs and memory exhaustion of the verifying process are observed as abnormal termination of the harness (address space limited to 4 GiB)"])
+                     "single- and two-segment proofs (auxiliary segment, Lagrange-kernel column, GKR section); time-outs and memory exhaustion of the verifying process are observed as abnormal termination of the harness (address space limited to 4 GiB)"])
     return rc
 
 
